@@ -1360,7 +1360,7 @@ func coordPlan() coordTierPlan {
 		codec := coordDefaultCfg("codec", 6)
 		resub := coordDefaultCfg("mem", 5)
 		resub.Resub = true
-		return coordTierPlan{Runs: []*coordCfg{deep, codec, resub}, NoMergeRuns: []*coordCfg{coordDefaultCfg("mem", 3)}}
+		return coordTierPlan{Runs: []*coordCfg{deep, codec, resub}, NoMergeRuns: []*coordCfg{coordDefaultCfg("mem", 4)}}
 	}
 	resub := coordDefaultCfg("mem", 4)
 	resub.Resub = true
